@@ -1,8 +1,116 @@
 import RisorModel.Util
-/-! Line-protocol front end of the C14 model (stub until the model exists). -/
+import RisorModel.C14.Model
+/-!
+Line-protocol front end of the C14 model (requests after the leading `C14` field).
+
+  spell  <kind> <a> <b>          kind ∈ ident|quoted|fromdot|fromq ; a = hex (fromdot: csv of hex) ; b = item hex or "-"
+         → accept|reject TAB csv(requested names) TAB csv(nameOK of each)
+  valid  <path>                  → true|false TAB nameOK
+  file   <root> <name> <ext>     → hex(fileName) TAB underRoot
+  run    <fuel> <limit> <root> <exts> <keys> <files> <main>
+         → out TAB ticks TAB opens TAB failed TAB reent TAB spawns TAB misbinds TAB nofuel TAB dump
+           TAB runsOnce TAB oneObjectPerName TAB globalsDisjoint TAB reruns(name:cause,...)
+-/
 namespace Risor.C14
+open Risor.Util
+open Risor.C13 (Path)
+
+def csvHex (s : String) : Option (List Path) :=
+  if s = "-" then some [] else (s.splitOn ",").mapM fun x => if x = "~" then some [] else fromHex x
+
+def hexOrTilde (p : Path) : String := if p.isEmpty then "~" else toHex p
+
+def showCsv (ps : List Path) : String :=
+  if ps.isEmpty then "-" else ",".intercalate (ps.map hexOrTilde)
+
+def parseItem (s : String) : Option (Path × Path) :=
+  match s.splitOn "=" with
+  | [a, b] => do pure ((← fromHex a), (← fromHex b))
+  | _ => none
+
+def parseStmt (s : String) : Option Stmt :=
+  match s.splitOn ":" with
+  | ["i", n, a] => do pure (.imp (← fromHex n) (← fromHex a))
+  | ["f", p, items] => do pure (.fromImp (← fromHex p) (← (items.splitOn ",").mapM parseItem))
+  | ["s", v, i] => do pure (.set (← fromHex v) (← i.toInt?))
+  | ["v", a, v, i] => do pure (.setVia (← fromHex a) (← fromHex v) (← i.toInt?))
+  | ["t", n] => do pure (.tryImp (← fromHex n))
+  | ["p", n] => do pure (.spawnImp (← fromHex n))
+  | ["x"] => some .fail
+  | _ => none
+
+def parseStmts (s : String) : Option (List Stmt) :=
+  if s = "-" then some [] else (s.splitOn ";").mapM parseStmt
+
+def parseFile (s : String) : Option (Path × List Stmt) :=
+  match s.splitOn "@" with
+  | [p, b] => do pure ((← fromHex p), (← parseStmts b))
+  | _ => none
+
+def parseFiles (s : String) : Option (List (Path × List Stmt)) :=
+  if s = "-" then some [] else (s.splitOn "|").mapM parseFile
+
+def showVal (st : St) : Val → String
+  | .int i => "i" ++ toString i
+  | .nil => "n"
+  | .mod o => "m" ++ toString o ++ ":" ++ (match st.objs[o]? with | some (n, _) => hexOrTilde n | none => "?")
+
+/-- tree walk of the globals reachable from the script's frame through module values -/
+def dump (st : St) (keys : List Path) : Nat → String → Nat → List String
+  | 0, _, _ => []
+  | fuel + 1, pre, g =>
+    keys.flatMap fun k =>
+      match (st.globals g).lookup k with
+      | none => []
+      | some v =>
+        let path := pre ++ "." ++ hexOrTilde k
+        (path ++ "=" ++ showVal st v) ::
+          (match v with
+           | .mod o => (match st.objs[o]? with
+              | some (_, g') => dump st keys fuel path g'
+              | none => [])
+           | _ => [])
+
+def showOut : Out → String
+  | .ok => "ok" | .err => "err" | .panic => "panic"
 
 def handle : List String → String
-  | _ => "error\tnot-implemented"
+  | ["valid", p] =>
+    match fromHex p with
+    | some p => toString (validImportPath p) ++ "\t" ++ toString (nameOK p)
+    | none => "error\tbad-hex"
+  | ["spell", kind, a, b] =>
+    let sp : Option Spelling :=
+      match kind with
+      | "ident" => (fromHex a).map .ident
+      | "quoted" => (fromHex a).map .quoted
+      | "fromdot" => do pure (.fromDotted (← csvHex a) (← fromHex b))
+      | "fromq" => do pure (.fromQuoted (← fromHex a) (← fromHex b))
+      | _ => none
+    match sp with
+    | some sp =>
+      let ns := requestedNames sp
+      (if accepted sp then "accept" else "reject") ++ "\t" ++ showCsv ns ++ "\t" ++
+        ",".intercalate (ns.map fun n => toString (nameOK n))
+    | none => "error\tbad-request"
+  | ["file", r, n, e] =>
+    match fromHex r, fromHex n, fromHex e with
+    | some r, some n, some e =>
+      toHexField (fileName r n e) ++ "\t" ++ toString (underRoot r (fileName r n e))
+    | _, _, _ => "error\tbad-hex"
+  | ["run", fuel, limit, root, exts, keys, files, main] =>
+    match fuel.toNat?, limit.toNat?, fromHex root, csvHex exts, csvHex keys, parseFiles files, parseStmts main with
+    | some fuel, some limit, some root, some exts, some keys, some files, some main =>
+      let env : Env := { root := root, exts := exts, files := files, limit := limit }
+      let r := run env fuel main
+      let st := r.2
+      let d := dump st keys 5 "main" 0
+      "\t".intercalate [showOut r.1.1, showCsv st.ticks, showCsv st.opens, showCsv st.failed, showCsv st.reent,
+        toString st.spawns, toString st.misbinds, toString st.nofuel,
+        (if d.isEmpty then "-" else ",".intercalate d),
+        toString (runsOnce st), toString (oneObjectPerName st), toString (globalsDisjoint st),
+        (if st.reruns.isEmpty then "-" else ",".intercalate (st.reruns.map fun r => hexOrTilde r.1 ++ ":" ++ toString r.2))]
+    | _, _, _, _, _, _, _ => "error\tbad-request"
+  | _ => "error\tunknown-request"
 
 end Risor.C14
